@@ -263,4 +263,198 @@ theorem prReadKeys_decodes (gen : Nat) (keys : List Nat) (hg : gen < 2 ^ 32) (hk
   rw [b2i_be _ 8 (by simpa using hk k hkm)]
 
 
+/-! ## VPD pages -/
+
+theorem bind_ok {α β : Type} (a : α) (f : α → Except PyErr β) : (Except.ok a >>= f) = f a := rfl
+
+theorem inq_hdr_reported (v : Vals) :
+    reported Gen.Inquiry_datain_bits v ++ reported Gen.Inquiry_pagecode_bits v =
+      [("peripheral_qualifier", .int (v "peripheral_qualifier")), ("peripheral_device_type", .int (v "peripheral_device_type")),
+       ("page_code", .int (v "page_code"))] := rfl
+
+/-- the VPD pages that are one flat table after the common header -/
+theorem vpd_flat (b : Block) (lay : Layout) (pc : Nat)
+    (hA : compatible Gen.Inquiry_datain_bits b.rel b.len = true)
+    (hP : compatible Gen.Inquiry_pagecode_bits b.rel b.len = true)
+    (hT : compatible lay b.rel b.len = true)
+    (hd : keysDisjoint [("peripheral_qualifier", FieldSpec.bits 1 0), ("peripheral_device_type", .bits 1 0), ("page_code", .bits 1 0)] lay = true)
+    (hpage : ∀ data result, Dec.inquiryVpdPage pc data result = (do pure (.dict (← decodeInto data lay result))))
+    (hlenf : (⟨"page_length", 2, 7, 16⟩ : DField) ∈ b.rel) (h4 : 4 ≤ b.len)
+    (v : Vals) (hr : InRangeD b.rel v) (hpc : v "page_code" = pc) (hlen : v "page_length" = b.len - 4) (tr : Bytes) :
+    Dec.inquiryVpd (b.enc v ++ tr) =
+      .ok (.dict (reported Gen.Inquiry_datain_bits v ++ reported Gen.Inquiry_pagecode_bits v ++ reported lay v)) := by
+  have hf := compatible_format hT
+  have hpl := b2i_slice_field b hf v hr tr ⟨"page_length", 2, 7, 16⟩ hlenf 2 rfl rfl (by simp only; omega)
+  simp only [Nat.reduceAdd] at hpl
+  unfold Dec.inquiryVpd
+  rw [decodeInto_std_nil _ _ hA v hr tr]
+  simp only [bind, Except.bind]
+  rw [decodeInto_std _ _ hP v hr tr _ (keysDisjoint_spec (by decide +kernel) v)]
+  dsimp only
+  rw [inq_hdr_reported]
+  have hg : getInt [("peripheral_qualifier", PV.int (v "peripheral_qualifier")),
+      ("peripheral_device_type", PV.int (v "peripheral_device_type")), ("page_code", PV.int (v "page_code"))] "page_code"
+      = .ok (v "page_code") := by simp [getInt, PDict.get?]
+  rw [hg]
+  dsimp only
+  rw [hpl, hlen, hpc, hpage]
+  have ht : (b.enc v ++ tr).take (4 + (b.len - 4)) = b.enc v := by
+    rw [List.take_left' (by rw [enc_length]; omega)]
+  rw [ht]
+  have := decodeInto_std lay b hT v hr [] [("peripheral_qualifier", PV.int (v "peripheral_qualifier")),
+      ("peripheral_device_type", PV.int (v "peripheral_device_type")), ("page_code", PV.int (v "page_code"))] (by
+    intro kv hkv kf hkf
+    unfold keysDisjoint at hd
+    simp only [List.all_eq_true, bne_iff_ne, ne_eq] at hd
+    rcases List.mem_cons.mp hkv with h | hkv
+    · rw [h]; show "peripheral_qualifier" ≠ kf.1; exact hd ("peripheral_qualifier", FieldSpec.bits 1 0) (by simp) kf hkf
+    rcases List.mem_cons.mp hkv with h | hkv
+    · rw [h]; show "peripheral_device_type" ≠ kf.1; exact hd ("peripheral_device_type", FieldSpec.bits 1 0) (by simp) kf hkf
+    rcases List.mem_cons.mp hkv with h | hkv
+    · rw [h]; show "page_code" ≠ kf.1; exact hd ("page_code", FieldSpec.bits 1 0) (by simp) kf hkf
+    · simp at hkv)
+  rw [List.append_nil, hpc] at this
+  simp only [bind, Except.bind]
+  rw [this]
+  rfl
+
+theorem b0A_c : compatible Gen.Inquiry_datain_bits vpdBlockLimits.rel 64 = true := by decide +kernel
+theorem b0P_c : compatible Gen.Inquiry_pagecode_bits vpdBlockLimits.rel 64 = true := by decide +kernel
+theorem b0T_c : compatible Gen.Inquiry_block_limits_bits vpdBlockLimits.rel 64 = true := by decide +kernel
+
+/-- Block Limits VPD page (B0h) -/
+theorem vpd_block_limits_decodes (v : Vals) (hr : InRangeD vpdBlockLimits.rel v) (hpc : v "page_code" = 0xB0)
+    (hlen : v "page_length" = 60) (tr : Bytes) :
+    Dec.inquiry (vpdBlockLimits.enc v ++ tr) 1 =
+      .ok (.dict (reported Gen.Inquiry_datain_bits v ++ reported Gen.Inquiry_pagecode_bits v ++
+                  reported Gen.Inquiry_block_limits_bits v)) := by
+  unfold Dec.inquiry
+  rw [if_neg (by decide)]
+  exact vpd_flat vpdBlockLimits _ 0xB0 b0A_c b0P_c b0T_c (by decide +kernel)
+    (by intro d r; unfold Dec.inquiryVpdPage; rw [if_neg (by decide), if_pos rfl])
+    (by decide) (by decide) v hr hpc hlen tr
+
+
+theorem block_dev_charA_c : compatible Gen.Inquiry_datain_bits vpdBlockDevChar.rel 64 = true := by decide +kernel
+theorem block_dev_charP_c : compatible Gen.Inquiry_pagecode_bits vpdBlockDevChar.rel 64 = true := by decide +kernel
+theorem block_dev_charT_c : compatible Gen.Inquiry_block_dev_char_bits vpdBlockDevChar.rel 64 = true := by decide +kernel
+
+/-- Block Device Characteristics VPD page (B1h) -/
+theorem vpd_block_dev_char_decodes (v : Vals) (hr : InRangeD vpdBlockDevChar.rel v) (hpc : v "page_code" = 0xB1)
+    (hlen : v "page_length" = 60) (tr : Bytes) :
+    Dec.inquiry (vpdBlockDevChar.enc v ++ tr) 1 =
+      .ok (.dict (reported Gen.Inquiry_datain_bits v ++ reported Gen.Inquiry_pagecode_bits v ++
+                  reported Gen.Inquiry_block_dev_char_bits v)) := by
+  unfold Dec.inquiry
+  rw [if_neg (by decide)]
+  exact vpd_flat vpdBlockDevChar _ 0xB1 block_dev_charA_c block_dev_charP_c block_dev_charT_c (by decide +kernel)
+    (by intro d r; unfold Dec.inquiryVpdPage; rw [if_neg (by decide), if_neg (by decide), if_pos rfl])
+    (by decide) (by decide) v hr hpc hlen tr
+
+theorem lbpA_c : compatible Gen.Inquiry_datain_bits vpdLbp.rel 8 = true := by decide +kernel
+theorem lbpP_c : compatible Gen.Inquiry_pagecode_bits vpdLbp.rel 8 = true := by decide +kernel
+theorem lbpT_c : compatible Gen.Inquiry_logical_block_provisioning_bits vpdLbp.rel 8 = true := by decide +kernel
+
+/-- Logical Block Provisioning VPD page (B2h) -/
+theorem vpd_lbp_decodes (v : Vals) (hr : InRangeD vpdLbp.rel v) (hpc : v "page_code" = 0xB2)
+    (hlen : v "page_length" = 4) (tr : Bytes) :
+    Dec.inquiry (vpdLbp.enc v ++ tr) 1 =
+      .ok (.dict (reported Gen.Inquiry_datain_bits v ++ reported Gen.Inquiry_pagecode_bits v ++
+                  reported Gen.Inquiry_logical_block_provisioning_bits v)) := by
+  unfold Dec.inquiry
+  rw [if_neg (by decide)]
+  exact vpd_flat vpdLbp _ 0xB2 lbpA_c lbpP_c lbpT_c (by decide +kernel)
+    (by intro d r; unfold Dec.inquiryVpdPage; rw [if_neg (by decide), if_neg (by decide), if_neg (by decide), if_pos rfl])
+    (by decide) (by decide) v hr hpc hlen tr
+
+theorem referralsA_c : compatible Gen.Inquiry_datain_bits vpdReferrals.rel 16 = true := by decide +kernel
+theorem referralsP_c : compatible Gen.Inquiry_pagecode_bits vpdReferrals.rel 16 = true := by decide +kernel
+theorem referralsT_c : compatible Gen.Inquiry_referrals_bits vpdReferrals.rel 16 = true := by decide +kernel
+
+/-- Referrals VPD page (B3h) -/
+theorem vpd_referrals_decodes (v : Vals) (hr : InRangeD vpdReferrals.rel v) (hpc : v "page_code" = 0xB3)
+    (hlen : v "page_length" = 12) (tr : Bytes) :
+    Dec.inquiry (vpdReferrals.enc v ++ tr) 1 =
+      .ok (.dict (reported Gen.Inquiry_datain_bits v ++ reported Gen.Inquiry_pagecode_bits v ++
+                  reported Gen.Inquiry_referrals_bits v)) := by
+  unfold Dec.inquiry
+  rw [if_neg (by decide)]
+  exact vpd_flat vpdReferrals _ 0xB3 referralsA_c referralsP_c referralsT_c (by decide +kernel)
+    (by intro d r; unfold Dec.inquiryVpdPage; rw [if_neg (by decide), if_neg (by decide), if_neg (by decide), if_neg (by decide), if_pos rfl])
+    (by decide) (by decide) v hr hpc hlen tr
+
+theorem extendedA_c : compatible Gen.Inquiry_datain_bits vpdExtended.rel 64 = true := by decide +kernel
+theorem extendedP_c : compatible Gen.Inquiry_pagecode_bits vpdExtended.rel 64 = true := by decide +kernel
+theorem extendedT_c : compatible Gen.Inquiry_extended_bits vpdExtended.rel 64 = true := by decide +kernel
+
+/-- Extended INQUIRY Data VPD page (86h) -/
+theorem vpd_extended_decodes (v : Vals) (hr : InRangeD vpdExtended.rel v) (hpc : v "page_code" = 0x86)
+    (hlen : v "page_length" = 60) (tr : Bytes) :
+    Dec.inquiry (vpdExtended.enc v ++ tr) 1 =
+      .ok (.dict (reported Gen.Inquiry_datain_bits v ++ reported Gen.Inquiry_pagecode_bits v ++
+                  reported Gen.Inquiry_extended_bits v)) := by
+  unfold Dec.inquiry
+  rw [if_neg (by decide)]
+  exact vpd_flat vpdExtended _ 0x86 extendedA_c extendedP_c extendedT_c (by decide +kernel)
+    (by intro d r; unfold Dec.inquiryVpdPage; rw [if_neg (by decide), if_neg (by decide), if_neg (by decide), if_neg (by decide), if_neg (by decide), if_neg (by decide), if_pos rfl])
+    (by decide) (by decide) v hr hpc hlen tr
+
+
+theorem hdrA_c : compatible Gen.Inquiry_datain_bits vpdHeader.rel 4 = true := by decide +kernel
+theorem hdrP_c : compatible Gen.Inquiry_pagecode_bits vpdHeader.rel 4 = true := by decide +kernel
+
+/-- the common part of the VPD pages whose body is a byte string: header decoded, buffer cut at PAGE LENGTH -/
+theorem vpd_bytes (pc : Nat) (body : Bytes) (v : Vals) (hr : InRangeD vpdHeader.rel v) (hpc : v "page_code" = pc)
+    (hlen : v "page_length" = body.length) (tr : Bytes) :
+    Dec.inquiryVpd (vpdHeader.enc v ++ body ++ tr) =
+      Dec.inquiryVpdPage pc (vpdHeader.enc v ++ body)
+        [("peripheral_qualifier", .int (v "peripheral_qualifier")), ("peripheral_device_type", .int (v "peripheral_device_type")),
+         ("page_code", .int pc)] := by
+  have hf := compatible_format hdrP_c
+  have e : vpdHeader.enc v ++ body ++ tr = vpdHeader.enc v ++ (body ++ tr) := by simp
+  have hpl := b2i_slice_field vpdHeader hf v hr (body ++ tr) ⟨"page_length", 2, 7, 16⟩ (by decide) 2 rfl rfl (by decide)
+  simp only [Nat.reduceAdd] at hpl
+  unfold Dec.inquiryVpd
+  rw [e, decodeInto_std_nil _ _ hdrA_c v hr (body ++ tr)]
+  rw [bind_ok]
+  rw [decodeInto_std _ _ hdrP_c v hr (body ++ tr) _ (keysDisjoint_spec (by decide +kernel) v)]
+  rw [bind_ok, inq_hdr_reported]
+  have hg : getInt [("peripheral_qualifier", PV.int (v "peripheral_qualifier")),
+      ("peripheral_device_type", PV.int (v "peripheral_device_type")), ("page_code", PV.int (v "page_code"))] "page_code"
+      = .ok (v "page_code") := by simp [getInt, PDict.get?]
+  rw [hg, bind_ok]
+  rw [hpl, hlen, hpc, ← e]
+  have ht : (vpdHeader.enc v ++ body ++ tr).take (4 + body.length) = vpdHeader.enc v ++ body := by
+    rw [List.take_left' (by rw [List.length_append, enc_length]; rfl)]
+  rw [ht]
+
+/-- Unit Serial Number VPD page (80h): exactly the PAGE LENGTH bytes of the serial number -/
+theorem vpd_serial_decodes (sn : Bytes) (v : Vals) (hr : InRangeD vpdHeader.rel v) (hpc : v "page_code" = 0x80)
+    (hlen : v "page_length" = sn.length) (tr : Bytes) :
+    Dec.inquiry (vpdHeader.enc v ++ sn ++ tr) 1 =
+      .ok (.dict [("peripheral_qualifier", .int (v "peripheral_qualifier")),
+                  ("peripheral_device_type", .int (v "peripheral_device_type")),
+                  ("page_code", .int 0x80), ("unit_serial_number", .bytes sn)]) := by
+  unfold Dec.inquiry
+  rw [if_neg (by decide), vpd_bytes 0x80 sn v hr hpc hlen tr]
+  unfold Dec.inquiryVpdPage
+  rw [if_neg (by decide), if_neg (by decide), if_neg (by decide), if_neg (by decide), if_neg (by decide), if_pos rfl]
+  rw [List.drop_left' (show (vpdHeader.enc v).length = 4 from enc_length _ _)]
+  simp [PDict.set, pure, Except.pure]
+
+/-- Supported VPD Pages VPD page (00h): exactly the PAGE LENGTH page codes, in order -/
+theorem vpd_supported_decodes (pages : Bytes) (v : Vals) (hr : InRangeD vpdHeader.rel v) (hpc : v "page_code" = 0)
+    (hlen : v "page_length" = pages.length) (tr : Bytes) :
+    Dec.inquiry (vpdHeader.enc v ++ pages ++ tr) 1 =
+      .ok (.dict [("peripheral_qualifier", .int (v "peripheral_qualifier")),
+                  ("peripheral_device_type", .int (v "peripheral_device_type")),
+                  ("page_code", .int 0), ("vpd_pages", .list (pages.map PV.int))]) := by
+  unfold Dec.inquiry
+  rw [if_neg (by decide), vpd_bytes 0 pages v hr hpc hlen tr]
+  unfold Dec.inquiryVpdPage
+  rw [if_pos rfl]
+  rw [List.drop_left' (show (vpdHeader.enc v).length = 4 from enc_length _ _)]
+  simp [PDict.set, pure, Except.pure]
+
+
 end C04
